@@ -283,6 +283,16 @@ func checkC18(c *Ctx) error {
 		dir := filepath.Join(append([]string{b}, rc.Start...)...)
 		var r CLIResult
 		if rc.WithD {
+			// other spellings of the same directory (trailing separators, a detour through a sub-directory)
+			switch caseHash([]string{jsonStr(rc)}, c.Seed) % 4 {
+			case 1:
+				dir += "/"
+			case 2:
+				dir += "//"
+			case 3:
+				os.MkdirAll(filepath.Join(dir, "zz"), 0o755)
+				dir += "/zz/.."
+			}
 			r = c.runCLI(b, "", "-d", dir, "regex", "generate", "932100")
 		} else {
 			r = c.runCLI(dir, "", "regex", "generate", "932100")
